@@ -19,7 +19,61 @@ def harness(drv, prop, tier, args, guard_on=True, extra_args=None):
     return drv.run(cmd, cwd=drv.ROOT)
 
 
+def run_r2(drv, prop, tier, args):
+    """C02 / C03: harness run with a transcript, then the independent Python reference recomputes it"""
+    ref = os.path.join(drv.ROOT, "ref")
+    t0 = time.time()
+    p = subprocess.run([sys.executable, os.path.join(ref, "anchors.py")], cwd=ref, capture_output=True, text=True)
+    if p.returncode != 0:
+        sys.stderr.write(p.stdout + p.stderr)
+        print("MACHINERY-ERROR R2 anchors failed: the Python reference may not be used as an oracle", file=sys.stderr)
+        return 2
+    tr = os.path.join(drv.ROOT, "target", f"{prop}.transcript.jsonl")
+    if os.path.exists(tr):
+        os.remove(tr)
+    rc = harness(drv, prop, tier, args, extra_args=["--transcript", tr])
+    if rc == 2 or "--replay" in args:
+        return rc
+    if not os.path.exists(tr):
+        print("MACHINERY-ERROR no transcript written", file=sys.stderr)
+        return 2
+    cmd = [sys.executable, os.path.join(ref, "verify_transcript.py"), tr]
+    if tier == "thorough":
+        cmd += ["--max", "40000"]
+    p = subprocess.run(cmd, cwd=ref, capture_output=True, text=True)
+    sys.stdout.write("".join(l + "\n" for l in p.stdout.splitlines() if l.startswith("R2-MISMATCH")))
+    if p.returncode not in (0, 1):
+        sys.stderr.write(p.stdout + p.stderr)
+        print("MACHINERY-ERROR R2 transcript verification crashed", file=sys.stderr)
+        return 2
+    try:
+        r2 = json.loads(p.stdout.strip().splitlines()[-1])
+    except Exception:
+        print("MACHINERY-ERROR cannot parse R2 result", file=sys.stderr)
+        return 2
+    evp = os.path.join(drv.ROOT, "evidence", f"{prop}.json")
+    ev = json.load(open(evp))
+    ev["coverage"]["r2_transcript"] = dict(r2, wall_s=round(time.time() - t0, 2), anchors="RFC 9180 A.1.1-A.1.4, A.2.1, A.3.1, A.6.1, A.7.1; RFC 7748; RFC 5869; GCM spec TC 1,2,4,14; RFC 8439 2.8.2; RFC 5903; curve constants self-validated",
+                                       note="every transcript line (inputs + R1 expectation + implementation output) recomputed from the inputs alone by the pure-Python reference")
+    ev["coverage"]["traces_validated_against_impl"] = ev["coverage"].get("traces_validated_against_impl", 0)
+    if p.returncode == 1:
+        os.makedirs(os.path.join(drv.ROOT, "replays", prop), exist_ok=True)
+        keep = os.path.join(drv.ROOT, "replays", prop, "r2-transcript.jsonl")
+        import shutil
+        shutil.copy(tr, keep)
+        ev["violations"] = ev.get("violations", 0) + r2.get("r2_mismatches", 1)
+        json.dump(ev, open(evp, "w"), indent=1)
+        print(f"VIOLATION property={prop} replay={keep}")
+        print(f"  R2 (independent Python RFC 9180) disagrees on {r2.get('r2_mismatches')} transcript lines; re-run: python3 ref/verify_transcript.py {keep}")
+        return 1
+    json.dump(ev, open(evp, "w"), indent=1)
+    print(f"[check] R2 reproduced {r2['r2_lines']} transcript lines ({r2['r2_kinds']}) in {time.time()-t0:.1f}s", file=sys.stderr)
+    return rc
+
+
 def dispatch(drv, prop, tier, args):
+    if prop in ("C02", "C03"):
+        return run_r2(drv, prop, tier, args)
     if prop == "C16":
         # slot scan from a guard-off build first (the ledger line must not be what keeps a wipe alive),
         # then scan + drop ledger from the guard-on build; one evidence file
